@@ -260,10 +260,74 @@ func (g *Gen) genText(multi bool) []byte {
 		}
 		out = append(out, c)
 	}
+	// texts never start with white space (so that a removed newline run never spans two items)
+	for len(out) > 0 && (out[0] == ' ' || out[0] == '\t' || out[0] == '\n') {
+		out = out[1:]
+	}
 	if len(out) == 0 {
 		out = []byte("t")
 	}
 	return out
+}
+
+// cutFmtDoc is the documented removal of formatting: every line break together with the
+// indentation (white space) that follows it.
+func cutFmtDoc(t []byte) []byte {
+	var out []byte
+	for i := 0; i < len(t); i++ {
+		if t[i] == '\n' {
+			j := i
+			for j < len(t) && (t[j] == '\n' || t[j] == '\t' || t[j] == ' ' || t[j] == '\r' || t[j] == '\f' || t[j] == '\v') {
+				j++
+			}
+			i = j - 1
+			continue
+		}
+		out = append(out, t[i])
+	}
+	return out
+}
+
+// specView returns the items as the reference semantics sees them: with formatting removed
+// from static text unless it is kept.
+func specView(ns []*Ast, keepFmt bool) []*Ast {
+	if keepFmt {
+		return ns
+	}
+	var out []*Ast
+	for _, n := range ns {
+		c := *n
+		if c.K == "text" {
+			c.Text = cutFmtDoc(c.Text)
+		}
+		c.Then, c.Else, c.Body, c.Default = specView(n.Then, false), specView(n.Else, false), specView(n.Body, false), specView(n.Default, false)
+		if len(n.Cases) > 0 {
+			c.Cases = nil
+			for _, cs := range n.Cases {
+				c.Cases = append(c.Cases, ACase{Cond: cs.Cond, Body: specView(cs.Body, false)})
+			}
+		}
+		out = append(out, &c)
+	}
+	return out
+}
+
+// trimTail removes blanks at the very end of a template (the parser trims the whole source).
+func trimTail(ns []*Ast) {
+	if len(ns) == 0 {
+		return
+	}
+	last := ns[len(ns)-1]
+	if last.K == "text" {
+		t := last.Text
+		for len(t) > 0 && (t[len(t)-1] == ' ' || t[len(t)-1] == '\t' || t[len(t)-1] == '\n') {
+			t = t[:len(t)-1]
+		}
+		if len(t) == 0 {
+			t = []byte("e")
+		}
+		last.Text = t
+	}
 }
 
 // marker text: short, distinct, never altered by pre-processing
@@ -764,7 +828,7 @@ func (g *Gen) genCLoop(depth int) *Ast {
 		}
 	}
 	if r.Chance(45) {
-		a.Sep = []string{",", ";", " | ", "-"}[r.Intn(4)]
+		a.Sep = []string{",", ";", "|", "-", ", ."}[r.Intn(5)]
 		a.SepKw = []string{"separator", "sep"}[r.Intn(2)]
 	}
 	g.scope = append(g.scope, scopeVar{a.Var, "int"})
@@ -813,7 +877,7 @@ func (g *Gen) genRLoop(depth int) *Ast {
 		a.Key, a.Var = g.newVar("k"), g.newVar("v")
 	}
 	if r.Chance(45) {
-		a.Sep = []string{",", ";", " | ", "-"}[r.Intn(4)]
+		a.Sep = []string{",", ";", "|", "-", ", ."}[r.Intn(5)]
 		a.SepKw = []string{"separator", "sep"}[r.Intn(2)]
 	}
 	n := 0
@@ -853,7 +917,14 @@ func (g *Gen) genCtx() *Ast {
 		a.CtxSrc = o.Path
 		g.tag("ctx:var:" + o.Kind)
 		if g.p.Mods && r.Chance(30) {
-			a.CtxMods = []AMod{g.genMod()}
+			m := g.genMod()
+			for i := range m.Args {
+				// the ctx tag's grammar admits word characters only inside literals
+				if m.Args[i].Lit && m.Args[i].Text == "N/A" {
+					m.Args[i].Text = "NA"
+				}
+			}
+			a.CtxMods = []AMod{m}
 		}
 	}
 	if r.Chance(30) {
